@@ -2,7 +2,7 @@
 
 Spec: spec/Lifecycle.tla (global-state projection, proxies, override ledgers, the fault disjunct
 enabled in every state of a running simulation, the cleanup of the finally clause in its real
-order; invariants Quiescent / SceneUntouched / RevertOnStop, model-checked exhaustively; two named
+order; invariants Quiescent / SceneUntouched / RevertOnStop, model-checked exhaustively; three named
 as-implemented deviations that TLC shows to break them).
 Binding: (1) fault enumeration on the real code: for every fault site x occurrence x ending kind
 the program raises at that point; before/after snapshots of the interpreter globals, of every
@@ -50,6 +50,12 @@ def boom(site, value=True):
     return value
 
 
+def setprop(obj, idx, prop, value):
+    """A run-time assignment by user code to a (non-dynamic, overridable) property."""
+    setattr(obj, "foo" if prop == 1 else "bar", value)
+    EVENTS.append(["write", idx, prop, value])
+
+
 def readback(tag, *objs):
     for i, o in enumerate(objs):
         EVENTS.append(["val", i + 1, 1, int(o.foo)])
@@ -64,7 +70,7 @@ class Act(Action):
         boom("action")
 '''
 
-PROGRAM = '''from vfault import boom, readback, Act
+PROGRAM = '''from vfault import boom, readback, setprop, Act
 
 behavior Sub():
     precondition: boom("guard")
@@ -74,6 +80,7 @@ behavior Sub():
 behavior B():
     try:
         boom("behavior")
+        setprop(self, 1, 1, 3)
         take Act(1)
         do Sub()
         take Act(2)
@@ -87,8 +94,8 @@ monitor M():
         boom("monitor")
         wait
 
-scenario Child(v):
-    precondition: boom("childguard")
+scenario Inner(v):
+    precondition: boom("innerguard")
     setup:
         boom("setup")
         override ego with foo v
@@ -97,6 +104,19 @@ scenario Child(v):
         boom("compose")
         wait
         readback("in", ego, other)
+        setprop(other, 2, 2, 3)
+        wait
+        wait
+
+scenario Child(v, n):
+    precondition: boom("childguard")
+    setup:
+        override ego with foo v
+        terminate after n steps
+    compose:
+        readback("mid", ego, other)
+        do Inner(v + 1)
+        readback("midafter", ego, other)
         wait
 
 ego = new Object with foo 0, with bar 0, with behavior B(), with allowCollisions True, with requireVisible False, with name boom("specifier", "e")
@@ -109,10 +129,11 @@ scenario Main():
         record boom("record", 1) as r
         require boom("requirement")
     compose:
+        wait
         readback("before", ego, other)
-        do Child(1)
+        do Child(1, 2)
         readback("between", ego, other)
-        do Child(2)
+        do Child(1, 9)
         readback("after", ego, other)
         wait
         wait
@@ -135,6 +156,7 @@ SITES = {
     "monitor": ["user", "rejectsim"],
     "guard": ["user", "false", "reject"],
     "childguard": ["user", "false"],
+    "innerguard": ["user", "false"],
     "topguard": ["user", "false"],
     "interrupt": ["user", "true", "reject"],
     "record": ["user", "rejectsim"],
@@ -219,7 +241,7 @@ def _wrap(vfault):
         return
     veneer._verif_wrapped = True
     ev = vfault.EVENTS
-    names = {"Main": 1, "Child": 2}
+    names = {"Main": 1, "Child": 2, "Inner": 3}
     _begin, _end = veneer.beginSimulation, veneer.endSimulation
     _on, _off = sims.enableDynamicProxyFor, sims.disableDynamicProxyFor
     _start, _stop, _ovr = DynamicScenario._start, DynamicScenario._stop, DynamicScenario._override
@@ -331,7 +353,7 @@ def _simulate(vfault, scene, plan):
     old = signal.signal(signal.SIGALRM, _alarm)
     signal.alarm(30)
     try:
-        return ("ok", sim.simulate(scene, maxSteps=8, maxIterations=1))
+        return ("ok", sim.simulate(scene, maxSteps=10, maxIterations=1))
     except _Timeout:
         return ("timeout", None)
     except BaseException as e:
@@ -437,11 +459,12 @@ CONSTANTS
  Obj = {1, 2}
  Prop = {1, 2, 3}
  DynProp = {3}
- Scen = {1, 2}
+ Scen = {1, 2, 3}
  Beh = {1}
  Parent <- ParentDef
  LedgerFirstOnly = %s
  FlagBeforeGuard = %s
+ ProxiesBeforeStops = %s
  MaxOps = 1000
 INVARIANT Progress
 POSTCONDITION Report
@@ -453,11 +476,12 @@ CONSTANTS
  Obj = {1, 2}
  Prop = {1, 2, 3}
  DynProp = {3}
- Scen = {1, 2}
+ Scen = {1, 2, 3}
  Beh = {1}
  Parent <- ParentDef
  LedgerFirstOnly = %s
  FlagBeforeGuard = %s
+ ProxiesBeforeStops = %s
  MaxOps = %d
 INVARIANT Quiescent
 INVARIANT SceneUntouched
@@ -466,15 +490,15 @@ CHECK_DEADLOCK FALSE
 """
 
 
-def validate_traces(ck, traces, first, flag):
+def validate_traces(ck, traces, first, flag, early="FALSE"):
     """Returns list of (accepted, reached) per trace under the given deviation constants."""
     if not traces:
         return []
-    path = os.path.join(scratch(), f"traces_{first}_{flag}.json")
+    path = os.path.join(scratch(), f"traces_{first}_{flag}_{early}.json")
     with open(path, "w") as f:
         json.dump(traces, f)
-    res = run_tlc("LifecycleTraceMC", TRACE_CFG % (first, flag), env={"TRACES": path}, workers=1, timeout=1800)
-    ck.add_tlc(f"LifecycleTrace(LedgerFirstOnly={first},FlagBeforeGuard={flag})", res)
+    res = run_tlc("LifecycleTraceMC", TRACE_CFG % (first, flag, early), env={"TRACES": path}, workers=1, timeout=1800)
+    ck.add_tlc(f"LifecycleTrace(LedgerFirstOnly={first},FlagBeforeGuard={flag},ProxiesBeforeStops={early})", res)
     rep = [o for o in res.outputs if "reached" in o]
     if not rep:
         raise MachineryError("LifecycleTrace produced no report")
@@ -501,14 +525,15 @@ def main(tier):
     ]
     # ---- design level: the specification admits no bad state; the deviations do
     ops = 3 if tier == "quick" else 4
-    res = run_tlc("LifecycleMC", MC_CFG % ("FALSE", "FALSE", ops), timeout=3000, coverage=True)
+    res = run_tlc("LifecycleMC", MC_CFG % ("FALSE", "FALSE", "FALSE", ops), timeout=3000, coverage=True)
     ck.add_tlc("Lifecycle", res)
     for a in ("Begin", "Create", "StartScenario", "Override", "SimWrite", "StopInnermost", "Fail", "DisableProxies", "EndSimulation"):
         if res.coverage.get(a, (0, 0))[1] == 0:
             raise MachineryError(f"Lifecycle action {a} never taken")
     dev = {}
-    for name, first, flag in (("LedgerFirstOnly", "TRUE", "FALSE"), ("FlagBeforeGuard", "FALSE", "TRUE")):
-        r = run_tlc("LifecycleMC", MC_CFG % (first, flag, 3), timeout=3000, expect_fail=True)
+    for name, first, flag, early in (("LedgerFirstOnly", "TRUE", "FALSE", "FALSE"), ("FlagBeforeGuard", "FALSE", "TRUE", "FALSE"),
+                                     ("ProxiesBeforeStops", "FALSE", "FALSE", "TRUE")):
+        r = run_tlc("LifecycleMC", MC_CFG % (first, flag, early, 3), timeout=3000, expect_fail=True)
         dev[name] = r.invariant_violated
         if r.ok:
             raise MachineryError(f"deviation {name} does not violate any property of Lifecycle.tla: the model is too weak")
@@ -605,8 +630,10 @@ def main(tier):
         sub = [traces[i] for i in rejected]
         v1 = validate_traces(ck, sub, "TRUE", "FALSE")
         v2 = validate_traces(ck, sub, "FALSE", "TRUE")
+        v3 = validate_traces(ck, sub, "FALSE", "FALSE", "TRUE")
         for j, i in enumerate(rejected):
-            dev_ok[i] = ("override-second-ledger" if v1[j][0] else None) or ("start-flag-before-guard" if v2[j][0] else None)
+            dev_ok[i] = (("override-second-ledger" if v1[j][0] else None) or ("start-flag-before-guard" if v2[j][0] else None)
+                         or ("revert-after-unproxy" if v3[j][0] else None))
     for i, (ok, reached) in enumerate(verdicts):
         (v, plan, op), r = trace_owner[i]
         if ok:
